@@ -177,8 +177,11 @@ fn run(ctx: &Ctx, out: &mut Out) {
     let mut combos: Vec<Vec<usize>> = vec![];
     for i in 0..nb {
         for j in i..nb {
-            // "take-owner-drop" twice is the same as once; keep (i,i) pairs for the others
+            // ordered pairs: the thread listed first starts (the explorer does not vary the first choice of a pair)
             combos.push(vec![i, j]);
+            if i != j {
+                combos.push(vec![j, i]);
+            }
         }
     }
     // triples containing the drop bodies
@@ -233,6 +236,7 @@ fn run(ctx: &Ctx, out: &mut Out) {
             true
         };
         // explore: a fresh Shared per schedule is created inside the body factory
+        let mut completed_bound: i64 = -1;
         let ex = {
             // bodies close over a cell that is refreshed before each run
             let cell: Arc<Mutex<Arc<Shared>>> = Arc::new(Mutex::new(new_shared().0));
@@ -274,7 +278,21 @@ fn run(ctx: &Ctx, out: &mut Out) {
                 }
                 check(r, choices)
             };
-            let ex = explore(&mk, b, stride, horizon, max_sched, (slice, nslices), &mut before, &mut wrapped);
+            // a wall-clock cap per case, well inside the watchdog's: a case that reaches it is reported as capped
+            let deadline = std::time::Instant::now() + std::time::Duration::from_secs(ctx.tier.pick(100, 300));
+            // iterative bounding: everything with 0 preemptions, then with <= 1, ... so that a case that runs
+            // into its cap still has a completed bound to report (each level contains the previous ones)
+            let mut ex = explore(&mk, 0, stride, horizon, max_sched, deadline, (slice, nslices), !is_triple, &mut before, &mut wrapped);
+            for bb in 1..=b {
+                if ex.capped {
+                    break;
+                }
+                completed_bound = bb as i64 - 1;
+                ex = explore(&mk, bb, stride, horizon, max_sched, deadline, (slice, nslices), !is_triple, &mut before, &mut wrapped);
+            }
+            if !ex.capped {
+                completed_bound = b as i64;
+            }
             let leak = leak.into_inner();
             if let Some(l) = leak {
                 first_bad = Some(("leak:shared-program".into(), l));
@@ -288,7 +306,7 @@ fn run(ctx: &Ctx, out: &mut Out) {
         out.count("replays-checked", ex.replays_checked);
         out.count("distinct-interleavings", ex.distinct_interleavings.len() as u64);
         if ex.capped && first_bad.is_none() {
-            out.cap(format!("{}: schedule cap {max_sched} hit at preemption bound {b}", label()));
+            out.cap(format!("{}: bound {b} not completed (stopped after {} schedules; cap: {max_sched} schedules or {} s per case); completed: all schedules with <= {completed_bound} preemptions", label(), ex.schedules, ctx.tier.pick(100, 300)));
         }
         match first_bad {
             None => {
@@ -528,8 +546,14 @@ pub fn cold_body(threads: usize, variant: usize) {
                 for (k, (_, op)) in ops.iter().enumerate() {
                     // spin barrier: everybody starts operation k together
                     arrived.fetch_add(1, Ordering::SeqCst);
+                    let mut spins = 0u32;
                     while arrived.load(Ordering::SeqCst) < (k + 1) * threads {
                         std::hint::spin_loop();
+                        spins += 1;
+                        // with fewer free cores than threads, give the others a chance to arrive
+                        if spins % 2048 == 0 {
+                            std::thread::yield_now();
+                        }
                     }
                     let r = std::panic::catch_unwind(std::panic::AssertUnwindSafe(|| op())).unwrap_or_else(|_| "panic".into());
                     lines.push(format!("FP {k} {t} {r}"));
